@@ -79,8 +79,14 @@ def main():
     inp = json.load(open(a.inp))
     client_mod.StorageServer = Recorder
     out = {"cases": [], "notes": {}}
-    for s in inp["texts"]:
-        r = {"txt": s,
+    import os, time
+    # the documented meaning (seconds, bytes, midnight UTC) must not depend on the node's local time zone:
+    # each text is evaluated under one of several zones, rotating
+    zones = ["UTC", "PST8", "XYZ-5:30", "AAA+11", "CET-1CEST"]
+    for i, s in enumerate(inp["texts"]):
+        os.environ["TZ"] = zones[i % len(zones)]
+        time.tzset()
+        r = {"txt": s, "tz": os.environ["TZ"],
              "dur": attempt(time_format.parse_duration, s),
              "size": attempt(abbreviate.parse_abbreviated_size, s),
              "date": attempt(time_format.parse_date, s)}
@@ -93,6 +99,8 @@ def main():
             r["cfg_date"] = {"v": x["v"]["expiration_cutoff_date"]} if "v" in x else x
         out["cases"].append(r)
 
+    os.environ["TZ"] = "UTC"
+    time.tzset()
     # ---- evidence only
     # (1) the value written by `tahoe create-node`
     buf = io.StringIO()
